@@ -59,6 +59,18 @@ def gen_graph_history(r, n, kind):
     ops.append({'op': 'txn', 'recs': [rec(0, [])]})
     for _ in range(n):
         x = r.random()
+        if x < 0.10 and kind == 'file' and len(created) > 1:
+            # alternate writes and undos of one object: the current record
+            # becomes an undo record whose back pointer leads to another
+            # undo record (chains of back pointers), and what the restored
+            # state references is referenced from nowhere else
+            o = r.choice(created)
+            keep = list(refs_of[o])
+            for _ in range(r.choice((1, 2, 2, 3))):
+                ops.append({'op': 'txn', 'recs': [rec(o, [])]})
+                ops.append({'op': 'undo', 'targets': [-1]})
+            refs_of[o] = keep
+            continue
         if x < 0.30 and nxt[0] < 11:
             # create an object and link it from an existing one
             o = new()
